@@ -904,6 +904,18 @@ add("C18", "constructor normalises qualifiers without is_table", SCHEMA,
     "            normalized_keys = [self._normalize_name(key, is_table=True) for key in keys]",
     "            *qualifiers, table_name = keys\n            normalized_keys = [self._normalize_name(key) for key in qualifiers]\n            normalized_keys.append(self._normalize_name(table_name, is_table=True))", "C18.e")
 
+add("C07", "revert: format_time renders the format with its comments", "sqlglot/generator.py",
+    '            self.sql(expression.args.get("format"), comment=False),\n', '            self.sql(expression, "format"),\n', "C07.g")
+add("C07", "log base tested on its rendered text", "sqlglot/generator.py",
+    "            if this.name in (\"2\", \"10\"):\n                return self.func(f\"LOG{this.name}\", expr)\n",
+    "            base = self.sql(this)\n            if base in (\"2\", \"10\"):\n                return self.func(f\"LOG{base}\", expr)\n", "C07.g")
+add("C07", "compound interval amount rendered into the quoted string", "sqlglot/generator.py",
+    "            this = self.escape_str(expression.this.name) if expression.this else \"\"\n",
+    "            this = self.escape_str(expression.this.name or self.sql(expression.this)) if expression.this else \"\"\n", "C07.g")
+add("C07", "benign: log base tested on the literal's own text through a local", "sqlglot/generator.py",
+    "            if this.name in (\"2\", \"10\"):\n                return self.func(f\"LOG{this.name}\", expr)\n",
+    "            base = this.name\n            if base in (\"2\", \"10\"):\n                return self.func(f\"LOG{base}\", expr)\n", "silent")
+
 add("C18", "ambiguous partial name resolves to the first candidate when the failure-only flag is off", "sqlglot/schema.py",
     "            if len(possibilities) == 1:\n                parts.extend(possibilities[0])\n            else:\n                if raise_on_missing:\n                    joined_parts = \".\".join(parts)\n                    message = \", \".join(\".\".join(p) for p in possibilities)\n                    raise SchemaError(f\"Ambiguous mapping for {joined_parts}: {message}.\")\n\n                return None\n",
     "            if len(possibilities) > 1 and raise_on_missing:\n                joined_parts = \".\".join(parts)\n                message = \", \".join(\".\".join(p) for p in possibilities)\n                raise SchemaError(f\"Ambiguous mapping for {joined_parts}: {message}.\")\n\n            parts.extend(possibilities[0])\n",
